@@ -20,7 +20,7 @@ kernel-visible states, error paths taken only after an earlier soft failure, int
 occurrences, round 7 (`R7-`) again towards the code of the last audit-wave fixes, with a list of every
 earlier change to avoid; round 8 (`R8-`) the same for the fifth audit wave's fixes). Every change was confirmed by `tools/seeded.sh` in a scratch worktree before being kept: the
 patch applies to `/repo` HEAD, the repository's 42 tests still pass with it, the agent's demonstration passes
-on the clean tree and fails with the patch. **{len(rows)} changes are kept; all are caught now.** For {missed_first} of them
+on the clean tree and fails with the patch. **{len(rows)} changes are kept; all are caught now** (last full regression of every kept change against the final machinery and `/repo` 597eae7: 194 check runs, 194 x exit 1). For {missed_first} of them
 at least one check that should have caught the change missed it when first run (recorded in the
 `meta.json`, with what was missing); the generator, the simulated kernel or the oracle was then
 strengthened — never loosened — and the change is caught since. Two seeds (C03-cont-drops-signal,
